@@ -41,8 +41,8 @@ TEXT = {
          "contract-based deductive verification (Verus) of the can_simplify guards of the real full_simplify / full_simplify_with_registry (function tails abstracted)"),
  "C10": ("other", "4.10", "PARTIAL (operator levels only): Verus proves for all token sequences that every precedence-level function of the real recursive-descent parser (condition .. unicode_power, and the generic parse_binop with its closures) returns exactly the tree that the documented precedence/associativity table prescribes for the tokens it consumed (spec relation g written from book/src/basics/operations.md). call/primary/arguments, `|>`, statements, the tokenizer and completeness of acceptance are not covered.",
          "contract-based deductive verification (Verus) of the real parser level functions against a recursive grammar relation; higher-order contracts (call_requires / call_ensures) for parse_binop's closures"),
- "C09": ("other", "4.6", "PARTIAL (bytecode encoding layer only): Verus proves layout and little-endian round-trip contracts on the real Vm::{push_u16, add_op*, patch_u16_value_at, read_byte, read_u16}: an operand written by the compiler or patcher is the operand the interpreter reads, and bytes/spans stay in lock step. Compilation order, slots, jumps distances, call frames are NOT covered.",
-         "contract-based deductive verification (Verus) of the VM byte-encoding helpers"),
+ "C09": ("other", "4.6", "PARTIAL: Verus proves (i) layout and little-endian round-trip contracts on the real Vm::{push_u16, add_op*, patch_u16_value_at, read_byte, read_u16}; (ii) per-arm layout contracts for 11 arms of compile_expression (identifier resolution = innermost binding, operator mapping and operand order, conditionals with their two jumps, lists / call arguments in source order, calls, function values) and the DefineFunction / expression-statement arms of compile_statement (scope = parameters ++ where-variables while the body is compiled); (iii) whole-stack postconditions for 17 arms of the VM run loop (jumps, logic, comparison, arithmetic, variables, calls and returns, structs, constants, list literals, procedure calls) plus lemmas tying (ii) and (iii) together. Not covered: struct / string / unit-identifier compiler arms, JoinString and foreign-function call arms, the dispatch loop; compile_expression at its recursive call sites is an assumed contract.",
+         "contract-based deductive verification (Verus): arm-level extraction of the real compiler and VM match arms, layout/stack postconditions and lemmas"),
  "C08": ("other", "5", "PARTIAL: panic-freedom of every function under contract in all units (arithmetic overflow, indexing, unwrap/expect, unreachable!, assert!/debug_assert! become Verus obligations under the stated preconditions). NOT the whole pipeline: tokenizer, parser, type checker, Product/Unit/DType arithmetic, diagnostics and promptness are outside; the three crashes named in the statement are outside every unit and are not detected.",
          "contract-based deductive verification (Verus): safety obligations of all extracted bodies"),
 }
